@@ -977,7 +977,7 @@ class Fn:
         pnames = " ".join(n for n, _ in self.params)
         out = [f"/-! ## `{self.p['source']}`  ({self.p.get('where', '')}) -/", ""]
         out.append(f"structure {self.name}.S where\n{fields}\n")
-        out.append(f"instance : Inhabited {self.name}.S := ⟨{{}}⟩\n")
+        out.append(f"instance {self.name}.S.instInhabited : Inhabited {self.name}.S := ⟨{{}}⟩\n")  # named: anonymous instances of different files clash on import
         # auxiliary loops take the parameters too
         for a in self.aux:
             if params:
